@@ -11,7 +11,7 @@ TIE_A = []
 CASE_TIMEOUT = 20
 RULE = ("pairs of MRSs: a generated well-formed (or mildly ill-formed: self-arguments, mutual arguments) MRS "
         "against (a) a consistently renamed copy with shuffled predications/constraints, (b) every kind of "
-        "single-point mutant (predicate, one argument target, role, constant, one property value, one handle "
+        "single-point mutant (predicate, one argument target incl. the intrinsic/bound variable, role, constant, one property value, one handle "
         "constraint, added individual constraint), (c) unrelated structures; with properties compared or "
         "ignored; bags of such structures for compare_bags. The oracle is an exhaustive search for a "
         "structure-preserving bijection (<= 6 predications). Non-trivial = both structures have >= 2 "
@@ -79,7 +79,7 @@ def _mutants(rng, m):
     rels = m["rels"]
     if not rels:
         return out
-    for kind in ("pred", "arg", "role", "carg", "prop", "hcons", "icons", "selfarg", "mutual"):
+    for kind in ("pred", "arg", "arg0", "arg0q", "role", "carg", "prop", "hcons", "icons", "selfarg", "mutual"):
         m2 = copy.deepcopy(m)
         r = rng.choice(m2["rels"])
         if kind == "pred":
@@ -90,6 +90,19 @@ def _mutants(rng, m):
                 continue
             a = rng.choice(cands)
             pool = [v for rr in m2["rels"] for role, v in rr["args"]
+                    if role != "CARG" and v[0] == a[1][0] and v != a[1]]
+            if not pool:
+                continue
+            a[1] = rng.choice(pool)
+        elif kind in ("arg0", "arg0q"):
+            # retarget an intrinsic/bound variable (for arg0q: of a quantifier) to another
+            # variable of the same sort that stays in use elsewhere
+            rs = [rr for rr in m2["rels"] if kind == "arg0" or any(a[0] == "RSTR" for a in rr["args"])]
+            if not rs:
+                continue
+            r = rng.choice(rs)
+            a = [a for a in r["args"] if a[0] == "ARG0"][0]
+            pool = [v for rr in m2["rels"] if rr is not r for role, v in rr["args"]
                     if role != "CARG" and v[0] == a[1][0] and v != a[1]]
             if not pool:
                 continue
